@@ -231,3 +231,7 @@ func zzDecorate(m *pool.Message, i int) {
 		m.SetOptionString(message.URIHost, "h")
 	}
 }
+
+// arrival order with a cancellation among four requests on one path (limits 2 / 1): a waiter that gives up leaves the
+// order of the waiters behind it unchanged
+func zzC16_fifo_cancel() { zzC16_limits() }
